@@ -94,6 +94,17 @@ def endsWith (s p : Str) : Bool := p.reverse.isPrefixOf s.reverse
 
 def quoted (n : Str) : Str := '`' :: n ++ ['`']
 
+/-- deepest nesting of parentheses / brackets in the text (reported with a missed deadline) -/
+def nestingDepth (t : Str) : Nat :=
+  (t.foldl (fun (acc : Nat × Nat) c =>
+    if c = '(' || c = '[' then (acc.1 + 1, max acc.2 (acc.1 + 1))
+    else if c = ')' || c = ']' then (acc.1 - 1, acc.2)
+    else acc) (0, 0)).2
+
+/-- the parse did not come back within the per-case deadline of the harness -/
+def deadlineVerdict (t : Str) : String :=
+  "parse-did-not-finish-within-deadline depth=" ++ toString (nestingDepth t)
+
 /-- C11 on one observation of `IDL::try_from`:
     accepted ⇔ the recogniser accepts and no name is defined twice; the structure mirrors the
     source (name, docs, per-kind key lists in source order, members); an `Idl` error names
@@ -102,6 +113,8 @@ def P_C11 (t : Str) (obs : Sx) : Option String :=
   let sp := Spec.parse t
   match obs with
   | .list (.atom "panic" :: _) => some "panic"
+  | .list (.atom "timeout" :: _) => some (deadlineVerdict t)
+  | .list [.atom "skipped"] => none
   | .list (.atom "parse-error" :: _) =>
     match sp with
     | none => none
@@ -140,11 +153,13 @@ def P_C11 (t : Str) (obs : Sx) : Option String :=
         else if decide (o.errors ≠ ofKind .error) then some "errors-differ-from-source"
         else none
 
-/-- C12 on one observation: no panic; a syntax error reports a line of the input and a column
+/-- C12 on one observation: no panic; the parse came back within the deadline; a syntax error reports a line of the input and a column
     within it (1 ≤ column ≤ length + 1); the error was rendered. -/
 def P_C12 (t : Str) (obs : Sx) : Option String :=
   match obs with
   | .list (.atom "panic" :: _) => some "panic"
+  | .list (.atom "timeout" :: _) => some (deadlineVerdict t)
+  | .list [.atom "skipped"] => none
   | .list [.atom "parse-error", col, line, shown] =>
     match asNat col, IdlObs.str line, IdlObs.str shown with
     | some col, some line, some shown =>
